@@ -647,8 +647,12 @@ class OpenSystem:
             
                 dsum = 0.0
                 
+                # energies relative to the lowest eigenvalue; otherwise all
+                # Boltzmann factors underflow at low temperature (0/0)
+                e0 = H.data[0,0]
+                
                 for n in range(H._data.shape[0]):
-                    dat[n,n] = numpy.exp(-H.data[n,n]/(kB_intK*T))
+                    dat[n,n] = numpy.exp(-(H.data[n,n]-e0)/(kB_intK*T))
                     dsum += dat[n,n]
 
                 dat *= 1.0/dsum
